@@ -202,7 +202,7 @@ def flat_fields(desc, cid):
     return base + c['fields']
 
 
-def gen_universe(rng, n_classes=5, max_fields=4, tns='urn:t', namespaces=('urn:t', 'urn:u'), model_only=True,
+def gen_universe(rng, n_classes=5, max_fields=4, tns='urn:t', namespaces=('urn:t', 'urn:u', 'urn:v'), model_only=True,
                  shared_names=('id', 'name', 'value')):
     """classes with inheritance, XmlAttribute members, wrapped arrays, max_occurs > 1 members, customised
     primitives, simpleContent classes (one XmlData member + attributes), member names shared between classes"""
@@ -225,7 +225,11 @@ def gen_universe(rng, n_classes=5, max_fields=4, tns='urn:t', namespaces=('urn:t
         if cands and rng.random() < 0.3:
             parent = rng.choice(cands)
             has_children.add(parent)
-        ns = classes[parent]['ns'] if parent is not None else rng.choice(namespaces)
+        # a subclass lives in its own namespace as often as in its base's: inherited members keep the namespace of
+        # the class that DECLARES them ({base}a inside a {derived}K element), and chains cross namespaces
+        ns = rng.choice(namespaces)
+        if parent is not None and rng.random() < 0.4:
+            ns = classes[parent]['ns']
         taken = set(f['name'] for f in flat_fields({'classes': classes}, parent)) if parent is not None else set()
         fields = []
         for j in range(rng.randint(1, max_fields)):
@@ -896,7 +900,15 @@ def ref_leaf_text(v, rng=None):
             return '1' if v[1] else '0'
         return 'true' if v[1] else 'false'
     if k == 'bytes':
-        return base64.b64encode(v[1]).decode('ascii')
+        t = base64.b64encode(v[1]).decode('ascii')
+        if rng is not None and t and rng.random() < 0.35:
+            # xs:base64Binary allows white space inside the literal: MIME-style line wrapping (base64.encodebytes,
+            # Java getMimeEncoder, openssl: 76 or 64 columns; short literals are wrapped narrowly here) and padding
+            w = rng.choice([76, 64, 4, 8]) if len(t) > 8 else 4
+            t = '\n'.join(t[i:i + w] for i in range(0, len(t), w))
+            if rng.random() < 0.5:
+                t = rng.choice(['\n', ' ', '\n  ']) + t + rng.choice(['\n', ' ', ''])
+        return t
     if k == 'date':
         return '%04d-%02d-%02d' % v[1]
     if k == 'time':
